@@ -868,3 +868,14 @@ mod tests {
         );
     }
 }
+
+/// Verification-only re-exports of the private calendar helpers (off unless the feature is enabled).
+#[cfg(feature = "kahflane_turdb_verif")]
+pub mod verif_hooks {
+    pub fn is_leap_year(year: i64) -> bool { super::is_leap_year(year) }
+    pub fn days_in_month(year: i64, month: u32) -> u32 { super::days_in_month(year, month) }
+    pub fn date_to_days(year: i64, month: u32, day: u32) -> i64 { super::date_to_days(year, month, day) }
+    pub fn days_to_date(days: i64) -> (i64, u32, u32) { super::days_to_date(days) }
+    pub fn day_of_week(year: i64, month: u32, day: u32) -> u32 { super::day_of_week(year, month, day) }
+    pub fn day_of_year(year: i64, month: u32, day: u32) -> u32 { super::day_of_year(year, month, day) }
+}
